@@ -23,7 +23,15 @@ let cmd_sign r = let h = rd_bytes r in let b = rd_bytes r in pr_bytes (sign h b)
 (* sig.clean <body> -> 1 if the section tag occurs nowhere in the body *)
 let cmd_clean r = let b = rd_bytes r in pr_bool (no_sub sig_tag b)
 
+(* sig.md5 <body> -> the 32 hex characters of Model/Md5.v's digest (as bytes) *)
+let cmd_md5 r = let b = rd_bytes r in pr_bytes (md5_hex b)
+
+(* sig.write <body> -> the signed file of write_signed_md5 *)
+let cmd_write r = let b = rd_bytes r in pr_bytes (fst (write_signed_md5 b))
+
 let () =
   Driver.register "sig.split" cmd_split;
   Driver.register "sig.sign" cmd_sign;
-  Driver.register "sig.clean" cmd_clean
+  Driver.register "sig.clean" cmd_clean;
+  Driver.register "sig.md5" cmd_md5;
+  Driver.register "sig.write" cmd_write
